@@ -34,7 +34,9 @@ MANIFEST = {
     'technique': 'finite sweep by vm_compute lifted to a forall (185 040 configurations) plus general lemmas in Coq about a model '
                  'whose tables are regenerated from read_abacus.py; exhaustive differential run of _resolve_columns; end-to-end '
                  'read_asdf on synthetic ASDF files',
-    'text': 'Eight theorems proved in Coq 8.16: resolve_total_table (finite sweep, bound stated in the theorem comment: 2^4 raw-'
+    'text': 'Nine theorems proved in Coq 8.16: ppd_default_nearest (the ppd handed to unpack_pids when the caller gives none is the header value '
+            'rounded to the nearest integer; the default expression and the argument lists of the three decoder calls are compared '
+            'structurally by the generator), resolve_total_table (finite sweep, bound stated in the theorem comment: 2^4 raw-'
             'column sets x 5 colname arguments x (1+2^8) load values x 3x3 deprecated flags; detection outcome as documented, no '
             'duplicate or unrequested column, exactly the requested columns whenever they are loadable for the file type, defaults '
             'loadable), and for arbitrary load lists load_wins, defaults, deprecated_table, exact_columns, detection, row_count, '
